@@ -86,3 +86,60 @@ def refine(values, subject, facts):
                 keep = isinstance(op, ast.Is) == q
                 vals = {v for v in vals if (v is None) == keep}
     return vals
+
+
+def class_const_values(repo, classnames, attr):
+    """values of class attribute `attr` over the named repo classes and
+    their subclasses (None entries skipped); None if a class is unknown"""
+    out = set()
+    for cn in classnames:
+        c = repo.find_class(cn)
+        if c is None:
+            return None
+        for k in repo.subclasses_of(cn):
+            v = k.consts.get(attr)
+            if v is None:
+                continue
+            try:
+                fv = fold_const(v)
+            except (NotConst, TypeError):
+                return None
+            if fv is not None:
+                out.add(fv)
+    return out
+
+
+def local_values(repo, func, name):
+    """union of the values assigned to local `name` anywhere in func:
+    literals, and `x.attr` where an isinstance fact at the assignment names
+    the classes of x and attr is a class constant; None if some assignment
+    has another form"""
+    out = set()
+    found = False
+    for st, (fs, _t) in stmt_facts(func.node).items():
+        if not (isinstance(st, ast.Assign) and any(
+                isinstance(t, ast.Name) and t.id == name
+                for t in st.targets)):
+            continue
+        found = True
+        v = st.value
+        if isinstance(v, ast.Constant):
+            out.add(v.value)
+            continue
+        if isinstance(v, ast.Attribute) and isinstance(v.value, ast.Name):
+            classes = None
+            for t, pol in fs:
+                for a, q in GuardWalker._atoms(t, pol):
+                    if q and isinstance(a, ast.Call) and \
+                            dotted(a.func) == 'isinstance' and \
+                            norm(a.args[0]) == v.value.id:
+                        tt = a.args[1]
+                        classes = [norm(x) for x in (
+                            tt.elts if isinstance(tt, ast.Tuple) else [tt])]
+            if classes:
+                cv = class_const_values(repo, classes, v.attr)
+                if cv is not None:
+                    out |= cv
+                    continue
+        return None
+    return out if found else None
